@@ -1,6 +1,7 @@
 package memo
 
 import (
+	"github.com/aperturerobotics/util/verifhook"
 	"sync/atomic"
 )
 
@@ -12,10 +13,12 @@ func MemoizeFunc[T any](fn func() (T, error)) func() (T, error) {
 	var doneErr error
 	return func() (T, error) {
 		if !started.Swap(true) {
+			verifhook.Point(verifhook.MemoMid, done)
 			defer close(done)
 			result, doneErr = fn()
 			return result, doneErr
 		} else {
+			verifhook.Point(verifhook.MemoMid, done)
 			<-done
 			return result, doneErr
 		}
